@@ -87,6 +87,8 @@ COMPONENT_SPECS = [
     {"kind": "cert", "allow_fp": "other"},
     {"kind": "rate", "capacity": 0},
     {"kind": "rate", "capacity": 5},
+    {"kind": "cert", "allow_fp": None, "prefix": "/private/"},
+    {"kind": "cert", "allow_fp": "other", "prefix": "/private/"},
 ]
 
 
@@ -112,7 +114,7 @@ def build_component(spec, log, loop, client_fp, idx):
             fps = {client_fp or "sha256:" + "0" * 64}
         elif spec["allow_fp"] == "other":
             fps = {"sha256:" + "ab" * 32}
-        inner = CertificateAuth(CertificateAuthConfig(path_rules=[CertificateAuthPathRule(prefix="/", require_cert=True, allowed_fingerprints=fps)]))
+        inner = CertificateAuth(CertificateAuthConfig(path_rules=[CertificateAuthPathRule(prefix=spec.get("prefix", "/"), require_cert=True, allowed_fingerprints=fps)]))
     elif k == "rate":
         inner = RateLimiter(RateLimitConfig(capacity=spec["capacity"], refill_rate=0.001, retry_after=7))
     else:
@@ -120,9 +122,11 @@ def build_component(spec, log, loop, client_fp, idx):
     return Recorder(inner, f"{idx}:{k}", log, loop)
 
 
-def expected_of(spec, has_cert, fp_presented):
+def expected_of(spec, has_cert, fp_presented, req_path="/"):
     """(decision, response-prefix) from configuration alone."""
     k = spec["kind"]
+    if k == "cert" and not canonical(req_path).startswith(spec.get("prefix", "/")):
+        return "allow", None
     if k == "spy":
         if spec["outcome"] == "deny":
             return "deny", spec["response"].encode()
@@ -140,12 +144,41 @@ def expected_of(spec, has_cert, fp_presented):
     raise ValueError(k)
 
 
+def canonical(path):
+    """Harness-side canonical location (decode, collapse slashes, resolve dot segments)."""
+    from urllib.parse import unquote
+
+    out = []
+    for seg in unquote(path).split("/"):
+        if seg in ("", "."):
+            continue
+        if seg == "..":
+            if out:
+                out.pop()
+            continue
+        out.append(seg)
+    return "/" + "/".join(out) + ("/" if path.endswith("/") and out else "")
+
+
+def request_path(req: bytes) -> str:
+    line = req.split(b"\r\n")[0].decode()
+    rest = line.split("://", 1)[1]
+    path = "/" + rest.split("/", 1)[1] if "/" in rest else "/"
+    return path.split(";")[0].split("?")[0]
+
+
 REQUESTS = [
     (b"gemini://example.org/doc.gmi\r\n", "gemini", True),
     (b"gemini://example.org/doc.gmi?q=1\r\n", "gemini-query", True),
     (b"titan://example.org/up.txt;size=5;mime=text/plain\r\nhello", "titan", True),
     (b"titan://example.org/up.txt;size=0\r\n", "titan-delete", True),
     (b"titan://example.org/existing.txt;size=3\r\nNEW", "titan-overwrite", True),
+    (b"gemini://example.org/private/doc.gmi\r\n", "gemini-private", True),
+    (b"gemini://example.org/doc.gmi/../private/./doc.gmi\r\n", "gemini-private-dotted", True),
+    (b"titan://example.org/private/up.txt;size=5;mime=text/plain\r\nhello", "titan-private", True),
+    (b"titan://example.org/private/up.txt;size=5;mime=text/plain;token=t/../../..\r\nhello", "titan-private-dotted-token", True),
+    (b"titan://example.org/private/up.txt;size=5;mime=x/../../../..\r\nhello", "titan-private-dotted-mime", True),
+    (b"titan://example.org/public/../private/up.txt;size=5\r\nhello", "titan-private-via-dotdot", True),
     (b"http://example.org/\r\n", "invalid-scheme", False),
     (b"titan://example.org/up.txt;size=x\r\nhello", "titan-invalid", False),
 ]
@@ -248,7 +281,7 @@ def run_conn(ctx, chain_specs, req, label, valid, schedule, has_cert, handler_ki
     exp_resp = None
     decider = None
     for i, s in enumerate(chain_specs):
-        d, r = expected_of(s, has_cert, fp)
+        d, r = expected_of(s, has_cert, fp, request_path(req))
         if d != "allow":
             exp, exp_resp, decider = d, r, i
             break
@@ -331,7 +364,7 @@ def chains(ctx, rng):
     # all single components, all ordered pairs of a reduced alphabet, sampled triples
     for s in COMPONENT_SPECS:
         out.append([s])
-    small = [COMPONENT_SPECS[i] for i in (0, 1, 2, 4, 5, 6, 7, 8, 10, 11, 12)]
+    small = [COMPONENT_SPECS[i] for i in (0, 1, 2, 4, 5, 6, 7, 8, 10, 11, 12, 13)]
     for a, b in itertools.permutations(small, 2):
         out.append([a, b])
     triples = list(itertools.permutations([COMPONENT_SPECS[i] for i in (0, 2, 4, 6, 8, 11, 12)], 3))
@@ -350,6 +383,9 @@ def run(ctx):
         os.makedirs(os.path.join(base, "doc"))
         with open(os.path.join(base, "doc", "doc.gmi"), "w") as f:
             f.write("# doc\n")
+        os.makedirs(os.path.join(base, "doc", "private"))
+        with open(os.path.join(base, "doc", "private", "doc.gmi"), "w") as f:
+            f.write("# private doc\n")
         k = 0
         all_chains = chains(ctx, rng)
         for ci, chain in enumerate(all_chains):
